@@ -80,3 +80,111 @@ Theorem C14_src_param_fallback_guard :
   /\ TokensGen.param_validated = true /\ TokensGen.param_lowercased = true.
 Proof. exact Struct_Tokens_Proofs.param_fallback_guard. Qed.
 Print Assumptions C14_src_param_fallback_guard.
+
+(* ------------------------------------------------------------------ the parameter-name fallback.
+   A pattern-less `$removeparam=name` rule matches every request but is indexed under the tokens of
+   its name, so the token guarantee TG is FALSE for it on a URL without that parameter
+   (TG_fallback_refuted below) — and the answer is still right, because a rule whose parameter is
+   not in the query removes nothing.  The theorems below replace TG by the relevance-restricted
+   guarantee TG_rp (only removeparam rules whose name is a removable key of THIS url must be
+   probed), prove the whole-answer theorems of Engine_Proofs under it, and prove TG_rp from the
+   concrete tokenizer for the fallback shape. *)
+From Adb Require Import Base Generated Hashing Net_Model Net_Proofs Engine_Model Tok_Proofs Tok_Ext_Model Tok_Ext_Proofs C14_Relevant_Model C14_Relevant_Proofs.
+From Adb Require C03_Model C13_Model C14_Model C15_Model.
+
+Theorem C14_relevant_names_only : forall names url,
+  C14_Model.apply_removeparam names url = C14_Model.apply_removeparam (filter (relevant url) names) url.
+Proof. exact apply_removeparam_relevant. Qed.
+Print Assumptions C14_relevant_names_only.
+
+Theorem C14_engine_rewritten_rp : forall (h : str -> N) (matches : rule -> bool) (pr : list N), In 0 pr ->
+  forall (url : str) (st : C13_Model.storage) (L : list rule) (T : list str),
+  id_inj L -> TG_rp h matches pr url L -> forall mr fc : bool,
+  r_rewritten (engine_check matches pr true url st mr fc (tags_with_set h (blocker_new h L) T))
+  = C14_Model.rewritten_url (v_important (spec_verdict_p matches mr fc L T)) (spec_param_names matches L) url.
+Proof. exact engine_rewritten_rp. Qed.
+Print Assumptions C14_engine_rewritten_rp.
+
+Theorem C14_engine_bits_rp : forall (h : str -> N) (matches : rule -> bool) (pr : list N), In 0 pr ->
+  forall (url : str) (st : C13_Model.storage) (L : list rule) (T : list str),
+  id_inj L -> TG_rp h matches pr url L -> forall mr fc : bool,
+  let r := engine_check matches pr true url st mr fc (tags_with_set h (blocker_new h L) T) in
+  {| v_matched := r_matched r; v_important := r_important r; v_exception := r_exception r; v_filter := r_filter r |}
+  = spec_verdict_p matches mr fc L T.
+Proof. exact engine_bits_rp. Qed.
+Print Assumptions C14_engine_bits_rp.
+
+Theorem C14_token_guarantee_param : forall (h : str -> N) (f : rule) (r : C03_Model.request) (odu ondu : option N) (u ul : str),
+  no_param_fallback h f = false -> relevant_rule u f = true -> url_tie u ul ->
+  C03_Model.check_options (rmask f) (rdomains f) odu (rnotdomains f) ondu r = true ->
+  (needs_source f = true -> nullb (param_tokens h f) = true -> C03_Model.rq_src r <> None) ->
+  (scheme_restricted f = true -> C03_Model.rq_http r || C03_Model.rq_https r = true) ->
+  scheme_tie r ul -> within_cutoff false false ul ->
+  covered h (probes h (C03_Model.rq_src r) ul) f.
+Proof. exact token_guarantee_param. Qed.
+Print Assumptions C14_token_guarantee_param.
+
+Theorem C14_TG_rp_mixed_list : forall h matches r u ul host L,
+  within_cutoff false false ul -> web_request r ul -> url_tie u ul -> mixed_hits h matches r ul host L ->
+  TG_rp h matches (probes h (C03_Model.rq_src r) ul) u L.
+Proof. exact TG_rp_mixed_list. Qed.
+Print Assumptions C14_TG_rp_mixed_list.
+
+Theorem C14_engine_rewritten_mixed : forall h matches r u ul host st mr fc L T,
+  id_inj L -> within_cutoff false false ul -> web_request r ul -> url_tie u ul ->
+  mixed_hits h matches r ul host L ->
+  r_rewritten (engine_check matches (probes h (C03_Model.rq_src r) ul) true u st mr fc (tags_with_set h (blocker_new h L) T))
+  = C14_Model.rewritten_url (v_important (spec_verdict_p matches mr fc L T)) (spec_param_names matches L) u.
+Proof. exact engine_rewritten_mixed. Qed.
+Print Assumptions C14_engine_rewritten_mixed.
+
+Theorem C14_engine_bits_mixed : forall h matches r u ul host st mr fc L T,
+  id_inj L -> within_cutoff false false ul -> web_request r ul -> url_tie u ul ->
+  mixed_hits h matches r ul host L ->
+  let e := engine_check matches (probes h (C03_Model.rq_src r) ul) true u st mr fc (tags_with_set h (blocker_new h L) T) in
+  {| v_matched := r_matched e; v_important := r_important e; v_exception := r_exception e; v_filter := r_filter e |}
+  = spec_verdict_p matches mr fc L T.
+Proof. exact engine_bits_mixed. Qed.
+Print Assumptions C14_engine_bits_mixed.
+
+Theorem C14_key_tokens_covered : forall ul n t, key_in ul n ->
+  In t (tku false false (lower_str n) 0 None None) -> In t (tku false false ul 0 None None).
+Proof. exact key_tokens_covered. Qed.
+Print Assumptions C14_key_tokens_covered.
+
+Theorem C14_relevant_has_key : forall u n, relevant u n = true -> has_key u n.
+Proof. exact relevant_has_key. Qed.
+Print Assumptions C14_relevant_has_key.
+
+Theorem C14_engine_redirect_eq_rp : forall (h : str -> N) (matches : rule -> bool) (pr : list N), In 0 pr ->
+  forall (url : str) (st : C13_Model.storage) (L : list rule) (T : list str),
+  id_inj L -> TG_rp h matches pr url L -> forall mr fc : bool, one_modifier L ->
+  r_redirect (engine_check matches pr true url st mr fc (tags_with_set h (blocker_new h L) T))
+  = C13_Model.redirect_of st (spec_redirects matches L).
+Proof. exact engine_redirect_eq_rp. Qed.
+Print Assumptions C14_engine_redirect_eq_rp.
+
+Theorem C14_engine_csp_policy_rp : forall (h : str -> N) (matches : rule -> bool) (pr : list N), In 0 pr ->
+  forall (url : str) (L : list rule) (T : list str),
+  id_inj L -> TG_rp h matches pr url L -> forall rtype, one_modifier L ->
+  C15_Model.same_policy (engine_csp matches pr rtype (tags_with_set h (blocker_new h L) T))
+    (C15_Model.get_csp_for rtype (spec_csp_rules matches L T)).
+Proof. exact engine_csp_policy_rp. Qed.
+Print Assumptions C14_engine_csp_policy_rp.
+
+Theorem C14_TG_fallback_refuted :
+  exists f u,
+    C03_Model.check_options (rmask f) (rdomains f) None (rnotdomains f) None rp_req = true /\
+    rfilter f = FEmpty /\ rhost f = None /\
+    no_param_fallback seahash f = false /\ relevant_rule u f = false /\
+    ~ covered seahash (probes seahash (C03_Model.rq_src rp_req) (lower_str u)) f.
+Proof. exact TG_fallback_refuted. Qed.
+Print Assumptions C14_TG_fallback_refuted.
+
+Theorem C14_url_tie_needed_refuted :
+  exists f u ul,
+    no_param_fallback seahash f = false /\ relevant_rule u f = true /\
+    within_cutoff false false ul /\ ~ url_tie u ul /\
+    ~ covered seahash (probes seahash (C03_Model.rq_src rp_req) ul) f.
+Proof. exact url_tie_needed_refuted. Qed.
+Print Assumptions C14_url_tie_needed_refuted.
